@@ -240,6 +240,24 @@ func InitApp() *App {
 		"wire.go":            "//go:build wireinject\n\npackage cfg\n\nimport (\n\t\"github.com/google/wire\"\n\tdbstore \"{{PKG}}/db/store\"\n\t\"{{PKG}}/mem/store\"\n)\n\nvar CacheBind = wire.NewSet(wire.Bind(new(Cache), new(*store.Mem)))\nvar StoreBind = wire.NewSet(wire.Bind(new(Store), new(*dbstore.SQL)))\n\nfunc InitApp() *App {\n\twire.Build(CacheBind, StoreBind, store.NewMem, dbstore.NewSQL, NewQ, NewApp)\n\treturn nil\n}\n",
 	}}
 	out = append(out, ext3)
+	// struct with a field of an external type that is NOT selected
+	out = append(out, &Config{Family: "W2", Desc: "FieldsOf subset of a struct with an unselected external-typed field", Pkg: "cfg", Injectors: []string{"InitQ"}, Files: map[string]string{
+		"types.go": "package cfg\n\nimport (\n\t\"bytes\"\n\t\"time\"\n)\n\ntype Opts struct {\n\tName    string\n\tTimeout time.Duration\n\tClient  *bytes.Buffer\n}\n\ntype Q struct{ _ int }\n\nfunc NewOpts() *Opts { return &Opts{} }\nfunc NewQ(name string) *Q { return &Q{} }\n",
+		"wire.go":  "//go:build wireinject\n\npackage cfg\n\nimport \"github.com/google/wire\"\n\nfunc InitQ() *Q {\n\twire.Build(NewOpts, wire.FieldsOf(new(*Opts), \"Name\"), NewQ)\n\treturn nil\n}\n",
+	}})
+	out = append(out, &Config{Family: "W2", Desc: "Struct subset of a struct with an unselected external-typed field", Pkg: "cfg", Injectors: []string{"InitQ"}, Files: map[string]string{
+		"types.go": "package cfg\n\nimport \"time\"\n\ntype Opts struct {\n\tName    string\n\tTimeout time.Duration\n}\n\ntype Q struct{ _ int }\n\nfunc NewName() string { return \"n\" }\nfunc NewQ(o *Opts) *Q { return &Q{} }\n",
+		"wire.go":  "//go:build wireinject\n\npackage cfg\n\nimport \"github.com/google/wire\"\n\nfunc InitQ() *Q {\n\twire.Build(NewName, wire.Struct(new(Opts), \"Name\"), NewQ)\n\treturn nil\n}\n",
+	}})
+	// same-named packages, same-named types, a Bind to one of them
+	for _, order := range []string{"v1codec.New, codec.New", "codec.New, v1codec.New"} {
+		out = append(out, &Config{Family: "W2", Desc: "same-named types in same-named packages, Bind to the second (" + order + ")", Pkg: "cfg", Injectors: []string{"InitS"}, Files: map[string]string{
+			"v1/codec/codec.go": "package codec\n\ntype Codec struct{ _ int }\n\nfunc (*Codec) Enc() string { return \"v1\" }\nfunc New() *Codec { return &Codec{} }\n",
+			"v2/codec/codec.go": "package codec\n\ntype Codec struct{ _ int }\n\nfunc (*Codec) Enc() string { return \"v2\" }\nfunc New() (*Codec, error) { return &Codec{}, nil }\n",
+			"types.go":          "package cfg\n\nimport v1codec \"{{PKG}}/v1/codec\"\n\ntype Encoder interface{ Enc() string }\ntype S struct{ _ int }\n\nfunc NewS(e Encoder, legacy *v1codec.Codec) *S { return &S{} }\n",
+			"wire.go":           "//go:build wireinject\n\npackage cfg\n\nimport (\n\t\"github.com/google/wire\"\n\tv1codec \"{{PKG}}/v1/codec\"\n\t\"{{PKG}}/v2/codec\"\n)\n\nfunc InitS() (*S, error) {\n\twire.Build(" + order + ", wire.Bind(new(Encoder), new(*codec.Codec)), NewS)\n\treturn nil, nil\n}\n",
+		}})
+	}
 	// multi-file
 	mf := feature("multi-file", "sets in one file, injector in another", `
 func InitApp(dsn string) (*App, error) {
